@@ -74,6 +74,12 @@ func (t *T) DeepCopy() *T {
 		IsStatic:            t.IsStatic,
 	}
 
+	// (the value of a key-value pair is a type of its own: a copy of the pair
+	// must not share it, or merging into the copy changes the original)
+	if valueT, ok := t.val.(*T); ok && t.tType == KEYVALUE {
+		result.val = valueT.DeepCopy()
+	}
+
 	if t.defineArgs != nil {
 		result.defineArgs = make([]string, len(t.defineArgs))
 		copy(result.defineArgs, t.defineArgs)
